@@ -5,6 +5,11 @@ Three layers per run (see notes/C11.md):
   and the polyploid `SwitchFlipCalculator.compute_switch_flips_poly` on exhaustive small + random larger inputs
   (also malformed ones) against the Lean model (correspondence) and against the brute-force definitions
   (property oracle, `harness/gen/c11_gen.py`, and the executable Lean spec `c11.blockspec` on small inputs);
+* number representation: the calculator keeps its scores in IEEE doubles; it is run with LARGE integer cost pairs (2^20 .. 2^50,
+  mostly fc = sc + 1, the optimum placed around 2^24, 2^31, 2^32 and just below 2^53) on small blocks against exact integer
+  optima (Python / Lean naturals), exactness demanded whenever p * (n * fc + sc) < 2^53; and long error-dense blocks
+  (tetraploid ~3000-4000, triploid ~5000-6000 positions) go through compare_block, whose own cost pair k / k+1 then
+  produces scores beyond 2^24 (integer Viterbi oracle, relabelling, Lean model);
 * relabelling: every (diploid, triploid) or sampled (tetraploid) permutation of the haplotype order of either
   phasing must leave `compare_block`'s numbers unchanged;
 * CLI: `whatshap compare` on pairs/triples of generated phased VCFs (ploidy 2-4, block structures, missing /
@@ -57,6 +62,11 @@ ASSUMPTIONS = [
     "alleles are single digits (at most 3 ALT alleles are generated); HP tags are not generated; VCFs are position-sorted",
     "float sums of k/ploidy per block are compared with tolerance 1e-9 to the exact rational",
     "Python asserts are enabled (the model maps AssertionError/KeyError/ZeroDivisionError to `error`)",
+    "scores of the polyploid calculator are exact integers only while they are < 2^53 (IEEE double, `typedef double Score`): "
+    "exactness of compute_switch_flips_poly / SwitchFlipCalculator is demanded for every cost pair with "
+    "ploidy * (n * flip_cost + switch_cost) < 2^53 (an upper bound of every score the dynamic program forms) and for nothing "
+    "beyond; compare_block's own pair k / k+1, k = ploidy * n + 1, stays inside for every block with ploidy * n < ~9.4e7 "
+    "(ploidy^2 * n^2 < 2^53); generated blocks have at most 6000 positions",
     "glue stream: for diploid calls with an allele >= 2 two readings of 'assessed' are admitted: every phased call is "
     "(then the numbers must equal the definitions: F46), or such calls are not assessed at all (fixes/F46.patch)",
 ]
@@ -256,20 +266,32 @@ class Lib:
         return impl, keys
 
     # -- the polyploid calculator with arbitrary costs ----------------------------------------------
-    def poly(self, ph0, ph1, sc, fc, brute):
+    def poly(self, ph0, ph1, sc, fc, brute, key="poly-not-optimal", wrapper=False):
+        """the calculator with the cost pair (sc, fc) against the exact optimum (Python integers / Lean naturals).
+        Exactness is demanded whenever every value the dynamic program can form stays below 2^53 (see exact_domain)."""
         ctx = self.ctx
         ctx.evaluated()
         p, n = len(ph0), len(ph0[0])
+        assert exact_domain(p, n, sc, fc), "cost pair outside the domain in which IEEE doubles are exact"
         case = {"kind": "poly", "ph0": ph0, "ph1": ph1, "sc": sc, "fc": fc}
         sw, fl, swc, flc, perm = self.Calc(p, sc, fc).compute_switch_flips_poly([hstr(h) for h in ph0], [hstr(h) for h in ph1])
         sw, fl = int(sw), int(fl)
         best, pairs = G.objective(ph0, ph1, sc, fc)
         keys = []
         if sc * sw + fc * fl != best or (sw, fl) not in pairs:
-            k = K_A if n == 1 else "poly-not-optimal"
+            k = K_A if n == 1 else key
             keys.append(k)
             ctx.fail(f"calculator returns switches={sw} flips={fl} (cost {sc * sw + fc * fl}); optimum {best}, optimal pairs {sorted(pairs)}",
                      case, key=k)
+        if wrapper:
+            # compare.py's entry point with explicit costs (what compare_block calls): haplotype-averaged numbers
+            r = self.C.compute_switch_flips_poly([hstr(h) for h in ph0], [hstr(h) for h in ph1], switch_cost=sc, flip_cost=fc)
+            ws, wf = frac(r.switches) * p, frac(r.flips) * p
+            if (ws, wf) not in pairs and not keys:
+                k = K_A if n == 1 else key
+                keys.append(k)
+                ctx.fail(f"compute_switch_flips_poly(switch_cost={sc}, flip_cost={fc}) returns {r.switches}/{r.flips} per haplotype = "
+                         f"({ws}, {wf}); optimum {best}, optimal pairs {sorted(pairs)}", case, key=k)
         if perm and n > 1:
             # the reported configuration must realise the reported numbers
             rs = sum(G.hd(perm[i], perm[i - 1]) for i in range(1, n))
@@ -291,6 +313,80 @@ class Lib:
                 if ans["cost"] != best or {tuple(x) for x in ans["pairs"]} != pairs:
                     ctx.disagree("c11.polybrute (Lean brute-force spec vs Python oracle)", req, [best, sorted(pairs)], ans)
             self.ask({"op": "c11.polybrute", "ph0": ph0, "ph1": ph1, "sc": sc, "fc": fc}, cb2)
+
+    # -- one long polyploid block through compare_block ------------------------------------------------
+    def long_block(self, ph0, ph1, relabels=8):
+        """a block of thousands of positions (het biallelic columns): compare_block hands the calculator the cost pair
+        k / k+1 with k = ploidy * n + 1, so its scores reach (switches + flips) * k - far beyond 2^24 for a long error-dense
+        block.  Definitions by the un-pruned integer Viterbi oracle (sets of optimal pairs stay singletons with the cost pair
+        K / K+1, K = 10^12, an exact lexicographic encoding of (switches + flips, flips))."""
+        ctx = self.ctx
+        ctx.evaluated()
+        p, n = len(ph0), len(ph0[0])
+        a, b = [hstr(h) for h in ph0], [hstr(h) for h in ph1]
+        case = {"kind": "longblock", "ph0": a, "ph1": b}
+        ctx.dist("long_block_ploidy_len", f"p={p} n~{round(n, -3)}")
+        impl = self.impl_block(ph0, ph1)
+        keys = []
+
+        def fail(what, key, c=None):
+            keys.append(key)
+            ctx.fail(what, c or case, key=key)
+        if impl == "error":
+            fail("compare_block raised on a well-formed block", "block-exception")
+            return
+        K = 10 ** 12
+        best, pairs = G.objective(ph0, ph1, K, K + 1, force_viterbi=True)
+        total, lex_fl = divmod(best, K)          # min (switches + flips), fewest flips among those
+        assert pairs == {(total - lex_fl, lex_fl)} and lex_fl < K
+        mp = G.matching_positions(ph0, ph1)
+        swc, swp = G.objective([[h[i] for i in mp] for h in ph0], [[h[i] for i in mp] for h in ph1], 1, 2 * n * p + 1, force_viterbi=True)
+        assert all(f_ == 0 for _, f_ in swp)
+        ctx.dist("long_block_score_log2", ((total * (p * n + 1)).bit_length()))
+        s, f_ = impl["sf"]
+        if impl["hamming"] != Fraction(G.min_hamming_num(ph0, ph1), p):
+            fail(f"Hamming {impl['hamming']} != minimum over correspondences", "block-hamming")
+        if impl["diff"] != n - len(mp):
+            fail(f"diff_genotypes {impl['diff']} != {n - len(mp)}", "block-diff-genotypes")
+        if impl["switches"] != Fraction(swc, p):
+            fail(f"switch errors {impl['switches']} != definition {Fraction(swc, p)}", "block-switches")
+        if (s + f_) * p != total:
+            fail(f"switch/flip {s}/{f_}: s+f is not the minimum {Fraction(total, p)}", "block-switchflips")
+        ctx.nontrivial("L" + "/".join(a) + "|" + "/".join(b))
+        # the calculator itself with the cost pair compare_block derives from the block: exact optimum demanded (k * total < 2^53)
+        k = p * n + 1
+        if exact_domain(p, n, k, k + 1):
+            sw, fl, _, _, _ = self.Calc(p, k, k + 1).compute_switch_flips_poly(a, b)
+            sw, fl = int(sw), int(fl)
+            if (sw, fl) != (total - lex_fl, lex_fl):
+                fail(f"calculator with costs {k}/{k + 1} returns switches={sw} flips={fl} (cost {k * sw + (k + 1) * fl}); the optimum "
+                     f"{k * total + lex_fl} is attained by ({total - lex_fl}, {lex_fl}) only", "poly-not-optimal")
+        # relabelling: listing the haplotypes of either phasing in another order changes nothing
+        perms = list(itertools.permutations(range(p)))
+        for _ in range(relabels):
+            s0, s1 = ctx.rng.choice(perms), ctx.rng.choice(perms)
+            r = self.impl_block(G.relabel(ph0, s0), G.relabel(ph1, s1))
+            if r != impl:
+                only_split = (r != "error" and all(r[x] == impl[x] for x in ("switches", "hamming", "diff")) and sum(r["sf"]) == sum(impl["sf"]))
+                fail(f"result changes when haplotypes are listed in order {s0}/{s1}: {show(impl)} -> {show(r)}",
+                     "block-relabel-long" if only_split else "block-relabel", dict(case, relabel=[list(s0), list(s1)]))
+                break
+
+        # correspondence: the model reports the unique lexicographic minimum (Props.C11.poly_fixed_split_unique_lexmin)
+        def cb(req, ans, impl=impl, keys=keys):
+            if ans != "error" and (ans["sf"][0], ans["sf"][1]) != (total - lex_fl, lex_fl):
+                ctx.disagree("c11.block:model-vs-definition (long block)", case, [total - lex_fl, lex_fl], ans["sf"])
+            elif not block_exact(impl, ans) and not keys:
+                ctx.disagree("c11.block (long block)", case, show(impl), ans if ans == "error" else {x: ans[x] for x in ("den", "switches", "hamming", "diff", "sf")})
+        self.ask({"op": "c11.block", "ph0": ph0, "ph1": ph1, "fixA": True, "fixB": True}, cb)
+
+
+def exact_domain(p, n, sc, fc):
+    """True when the calculator must be exact: it keeps its scores in IEEE doubles (`typedef double Score`), every score it forms
+    is a sum of integer multiples of the two costs, and none exceeds p * (n * fc + sc) (column scores are at most
+    (i + 1) * p * fc by induction - staying on one correspondence is always a candidate - and a candidate adds at most
+    p * sc).  Below 2^53 every such integer and every such sum is represented exactly."""
+    return 0 <= sc and 0 <= fc and p * (n * fc + sc) < 2 ** 53
 
 
 def show(r):
@@ -977,6 +1073,8 @@ def replay_case(ctx, lib, d, c):
         lib.raw(c["a"], c["b"])
     elif kind == "poly":
         lib.poly(c["ph0"], c["ph1"], c["sc"], c["fc"], brute=math.factorial(len(c["ph0"])) ** len(c["ph0"][0]) <= 3000)
+    elif kind == "longblock":
+        lib.long_block([[int(x) for x in h] for h in c["ph0"]], [[int(x) for x in h] for h in c["ph1"]])
     elif kind == "cli":
         check_cli(ctx, G.Scenario.from_case(c), d, 1)
     elif kind == "glue":
@@ -996,6 +1094,10 @@ def _run(ctx, rng, lib, d):
     quick, scale = ctx.quick, ctx.scale
     if os.environ.get("VERIF_C11_ONLY") == "glue":      # development aid: only the glue stream
         glue_stream(ctx, rng, d, int(os.environ.get("VERIF_C11_N", "200")))
+        return
+    if os.environ.get("VERIF_C11_ONLY") in ("large", "long"):      # development aid: only the large-cost / long-block stream
+        (large_cost_stream if os.environ["VERIF_C11_ONLY"] == "large" else long_block_stream)(ctx, rng, lib, int(os.environ.get("VERIF_C11_N", "200")))
+        lib.flush()
         return
 
     # ---- raw string functions: exhaustive small, random larger, malformed
@@ -1104,6 +1206,8 @@ def _run(ctx, rng, lib, d):
         ph1 = [rand_hap(rng, n) for _ in range(p)]
         sc, fc = rng.choice([(1, 1), (1, 1), (1, 2), (2, 1), (1, 3), (3, 2), (1, 2 * n * p + 1), (5, 1)])
         lib.poly(ph0, ph1, sc, fc, brute=math.factorial(p) ** n <= 2000 and it % 2 == 0)
+    large_cost_stream(ctx, rng, lib, (900 if quick else 9000) * scale)
+    long_block_stream(ctx, rng, lib, (2 if quick else 14) * scale)
     lib.flush()
     ctx.extra["exhaustive"] = True
 
@@ -1129,6 +1233,85 @@ def _run(ctx, rng, lib, d):
         check_cli(ctx, scen, d, n_relabel=2 if quick else 3)
 
     glue_stream(ctx, rng, d, (40 if quick else 400) * scale)
+
+
+def large_cost_stream(ctx, rng, lib, n_cases):
+    """the calculator (and compare.compute_switch_flips_poly) with LARGE integer cost pairs on small blocks, where the exact
+    optimum is known from brute force / the integer Viterbi oracle / the Lean model over naturals: costs 2^20 .. 2^50, mostly
+    fc = sc + 1 (the shape compare_block uses: lexicographic (switches + flips, flips)), chosen so that the optimum
+    sc * (switches + flips) lands just below / at / just above 2^24, 2^31, 2^32 and up to just below 2^53.  Exactness is
+    demanded for every pair inside exact_domain (all scores < 2^53); a few pairs beyond it are run and only counted."""
+    thresholds = [2 ** 24, 2 ** 24, 2 ** 31, 2 ** 32, 2 ** 53]
+    beyond = [0, 0]
+    for it in range(n_cases):
+        p = rng.choice([2, 3, 3, 4, 4])
+        n = rng.randrange(1, 6 if p < 4 else 4) if it % 3 else rng.randrange(3, 9 if p < 4 else 7)
+        if it % 2 and n >= 2:
+            ph0 = G.truth_haps(rng, p, n)       # what compare_block sees: het columns, a perturbed copy
+            ph1 = G.perturb(rng, ph0, rng.choice([0.1, 0.3, 0.6]), rng.choice([0.2, 0.6, 1.0]), rng.choice([0.0, 0.0, 0.3]))
+        else:
+            ph0 = [rand_hap(rng, n) for _ in range(p)]
+            ph1 = [rand_hap(rng, n) for _ in range(p)]
+        errors, _ = G.objective(ph0, ph1, 1, 1)
+        cap = (2 ** 53 - 1) // (p * (n + 1)) - 1          # max(sc, fc) <= cap  =>  exact_domain
+        if it % 16 == 15:
+            # outside the domain: nothing is demanded; the run documents where exactness ends
+            sc = rng.randrange(2 ** 53, 2 ** 60)
+            fc = sc + 1
+            best, pairs = G.objective(ph0, ph1, sc, fc)
+            try:
+                sw, fl, _, _, _ = lib.Calc(p, sc, fc).compute_switch_flips_poly([hstr(h) for h in ph0], [hstr(h) for h in ph1])
+                ok = (int(sw), int(fl)) in pairs
+            except (OverflowError, ValueError):
+                ok = False
+            beyond[0 if ok else 1] += 1
+            continue
+        if errors == 0 and rng.random() < 0.8:
+            continue
+        if errors == 0 or it % 4 == 0:
+            e = rng.randrange(20, 51)
+            sc = 2 ** e + rng.choice([-1, 0, 0, 1, rng.randrange(2 ** e)])
+        else:
+            t = rng.choice(thresholds)
+            q = t // errors
+            sc = q + rng.choice([-2, -1, 0, 1, 2, rng.randrange(q // 8 + 1), -rng.randrange(q // 8 + 1)])
+        sc = max(2, min(sc, cap - rng.randrange(4)))
+        shape = rng.choice(["k,k+1"] * 6 + ["k,k", "k+1,k", "1,k", "k,1", "k,2k"])
+        sc, fc = {"k,k+1": (sc, sc + 1), "k,k": (sc, sc), "k+1,k": (sc + 1, sc), "1,k": (1, sc), "k,1": (sc, 1),
+                  "k,2k": (sc // 2, 2 * (sc // 2))}[shape]
+        if not exact_domain(p, n, sc, fc):
+            continue
+        ctx.dist("large_cost_shape", shape)
+        ctx.dist("large_cost_optimum_log2", (G.objective(ph0, ph1, sc, fc)[0]).bit_length() // 4 * 4)
+        lib.poly(ph0, ph1, sc, fc, brute=math.factorial(p) ** n <= 2000 and it % 3 == 0, key="poly-large-cost-inexact", wrapper=True)
+    ctx.dist("costs_beyond_2^53_still_optimal", beyond[0])
+    ctx.dist("costs_beyond_2^53_not_optimal", beyond[1])
+
+
+def dense_pair(rng, p, n, style):
+    """two phasings of n het columns with errors at (almost) every position"""
+    ph0 = G.truth_haps(rng, p, n)
+    if style == 0:
+        cols = []
+        for i in range(n):
+            c = [ph0[j][i] for j in range(p)]
+            rng.shuffle(c)                   # same genotype, alleles assigned to haplotypes independently at every position
+            cols.append(c)
+        ph1 = [[cols[i][j] for i in range(n)] for j in range(p)]
+    else:
+        ph1 = G.perturb(rng, ph0, rng.choice([0.3, 0.5]), rng.choice([0.9, 1.0]), rng.choice([0.0, 0.05]))
+    return ph0, ph1
+
+
+def long_block_stream(ctx, rng, lib, n_blocks):
+    """blocks long and error-rich enough that the scores compare_block's cost pair produces exceed 2^24 (tetraploid: about
+    3000 positions with > 1400 raw switches + flips; triploid: about 5000)"""
+    for it in range(n_blocks):
+        p = 4 if it % 4 != 3 else 3
+        n = rng.randrange(2800, 4200) if p == 4 else rng.randrange(4800, 6000)
+        ph0, ph1 = dense_pair(rng, p, n, 0 if it % 3 != 2 else 1)
+        lib.long_block(ph0, ph1)
+        lib.flush()
 
 
 def glue_stream(ctx, rng, d, n_glue):
